@@ -271,12 +271,18 @@ func runCheck(prop, repo, verif, tier, work string, tmo int, verbose bool, updat
 			rr.Solver = f.o.Output
 			rr.Query = f.o.FailFile
 		}
-		reproduced := false
-		if f.o != nil && f.rep != nil && f.o.Status == "failed" {
-			reproduced = tryReplay(prog, cs, f.rep, f.o, repo, verif, work, &rr)
-		}
-		if !reproduced {
-			reproduced = tryCanary(f.name, repo, verif, work, &rr)
+		// a registered canary first (seconds); the model-based search second, within a budget for the whole check:
+		// a change that breaks twenty clauses of one function would otherwise search for minutes per clause
+		reproduced := tryCanary(f.name, repo, verif, work, &rr)
+		if !reproduced && f.o != nil && f.rep != nil && f.o.Status == "failed" {
+			if time.Since(replayStart) < replayBudget || replayStart.IsZero() {
+				if replayStart.IsZero() {
+					replayStart = time.Now()
+				}
+				reproduced = tryReplay(prog, cs, f.rep, f.o, repo, verif, work, &rr)
+			} else {
+				rr.How += "; model-based input search skipped (the check's replay budget of 4 min is used up)"
+			}
 		}
 		rfile := filepath.Join(replayDir, sanitize(strings.ReplaceAll(f.name, "/", "__"))+".json")
 		if rr.Query != "" {
@@ -464,6 +470,13 @@ func tryReplay(prog *Program, cs *ContractSet, rep *FuncReport, o *ObligSummary,
 
 // tryCanary runs the hand-written canary input registered for an obligation (replay/canaries/index.json)
 // against the real code; used where the solver gives no model (nonlinear / quantified obligations).
+var replayStart time.Time
+
+const replayBudget = 4 * time.Minute
+
+// canaryRuns caches the outcome of a canary file within one check (several obligations may share a file)
+var canaryRuns = map[string]string{}
+
 func hasCanary(obligation, verif string) bool {
 	b, err := os.ReadFile(filepath.Join(verif, "replay", "canaries", "index.json"))
 	if err != nil {
@@ -484,7 +497,7 @@ func tryCanary(obligation, repo, verif, work string, rr *ReplayResult) bool {
 	}
 	var idx map[string]struct {
 		File, Pkgdir, Input string
-		AnyFail            bool `json:"any_fail"`
+		AnyFail             bool `json:"any_fail"`
 	}
 	if json.Unmarshal(b, &idx) != nil {
 		return false
@@ -505,11 +518,15 @@ func tryCanary(obligation, repo, verif, work string, rr *ReplayResult) bool {
 	ovb, _ := json.Marshal(ov)
 	ovFile := filepath.Join(wd, "overlay.json")
 	os.WriteFile(ovFile, ovb, 0o644)
-	cmd := exec.Command("go", "test", "-overlay", ovFile, "-vet=off", "-count=1", "-timeout", "180s", "-run", "^TestVerifReplay$", "./"+e.Pkgdir)
-	cmd.Dir = repo
-	cmd.Env = append(os.Environ(), "GOFLAGS=-mod=mod", "GOPROXY=off", "GOSUMDB=off", "GOTOOLCHAIN=local")
-	out, _ := cmd.CombinedOutput()
-	txt := string(out)
+	txt, cached := canaryRuns[e.File+"|"+e.Pkgdir]
+	if !cached {
+		cmd := exec.Command("go", "test", "-overlay", ovFile, "-vet=off", "-count=1", "-timeout", "180s", "-run", "^TestVerifReplay$", "./"+e.Pkgdir)
+		cmd.Dir = repo
+		cmd.Env = append(os.Environ(), "GOFLAGS=-mod=mod", "GOPROXY=off", "GOSUMDB=off", "GOTOOLCHAIN=local")
+		out, _ := cmd.CombinedOutput()
+		txt = string(out)
+		canaryRuns[e.File+"|"+e.Pkgdir] = txt
+	}
 	rr.TestFile = string(src)
 	rr.TestOutput = trunc(txt, 3000)
 	rr.How += "; canary input: " + e.Input
